@@ -1,0 +1,25 @@
+//go:build verif
+
+package redisemu
+
+import "sync/atomic"
+
+// VerifPointFn is the callback type for schedule/crash points (build tag "verif").
+type VerifPointFn func(name string, id int64)
+
+var verifPointFn atomic.Pointer[VerifPointFn]
+
+// VerifSetPointCallback installs (or with nil removes) the callback invoked at every verifPoint.
+func VerifSetPointCallback(fn VerifPointFn) {
+	if fn == nil {
+		verifPointFn.Store(nil)
+	} else {
+		verifPointFn.Store(&fn)
+	}
+}
+
+func verifPoint(name string, id int64) {
+	if p := verifPointFn.Load(); p != nil {
+		(*p)(name, id)
+	}
+}
